@@ -3,7 +3,7 @@ from vlib import Rng
 
 RULE = ("family fs: FilesystemHandler serving one file; sizes 0..12 exhaustively with every first-range spec with bounds in [-2,size+2] "
         "(x-y, x-, -n), malformed / multi-range / other-unit / large-number headers; block-boundary sizes 65535/65536/65537/131072/131073/"
-        "196608 in thorough; directory listings with names needing HTML escaping; non-trivial = distinct case. Copy-block sizes 1..size+1 "
+        "196608 in thorough; directory listings with names needing HTML escaping and with UTF-8 names (entries and the listed directory); non-trivial = distinct case. Copy-block sizes 1..size+1 "
         "are covered by C14 (the handler's block size is fixed at 65536)")
 ASSUMPTIONS = ["suffix length 0 ('-0') is excluded; numbers above 2^31-1 may be answered with either form", "Content-Type (MIME detection) is ignored"]
 TRUSTED = ["composition of the Range model (C16) and the copier model (C14); QDir entry listing order is modelled"]
@@ -52,3 +52,11 @@ def cases(tier, seed, ctx=None):
         tree = [[b"root/d", 1, b""]] + [[b"root/d/" + n + (b"/k" if isd else b""), 0, b"c"] for n, isd in sel] + [[b"root/d/.hid", 0, b"h"]]
         for path in (b"d", b"d/"):
             yield ("fs", [tree, b"@BASE@/root", path, [], ver, [8, 1, [[n, isd] for n, isd in sel]]], "listing")
+    # names outside ASCII (UTF-8 on disk): as entries, and as the listed directory itself (echoed in title and heading)
+    for sel in ([(b"caf\xc3\xa9.txt", 0)], [(b"\xe4\xb8\xad\xe6\x96\x87.txt", 0)], [(b"a.txt", 0), (b"\xc3\xa9.txt", 0), (b"z.txt", 0)],
+                [(b"d\xc3\xafr", 1), (b"x<\xc3\xa9>.txt", 0)]):
+        tree = [[b"root/d", 1, b""]] + [[b"root/d/" + n + (b"/k" if isd else b""), 0, b"c"] for n, isd in sel]
+        yield ("fs", [tree, b"@BASE@/root", b"d/", [], ver, [8, 1, [[n, isd] for n, isd in sel]]], "listing-utf8")
+    tree = [[b"root/d\xc3\xafr/k.txt", 0, b"c"], [b"root/\xe4\xb8\xad/sub/k", 0, b"c"]]
+    for path, ents in ((b"d\xc3\xafr/", [[b"k.txt", 0]]), (b"d%C3%AFr", [[b"k.txt", 0]]), (b"\xe4\xb8\xad/", [[b"sub", 1]])):
+        yield ("fs", [tree, b"@BASE@/root", path, [], ver, [8, 1, ents]], "listing-utf8-dir")
